@@ -204,3 +204,16 @@ Theorem C03_ktx_off :
   forall chain T hs, ktx false chain T hs = fold_left omin (map Some hs) None.
 Proof. exact ktx_off. Qed.
 Print Assumptions C03_ktx_off.
+
+(** *** the TIP_IS_FINAL guard as coded has no height condition; the variant with one is refuted *)
+
+Theorem C03_outer_below_final_is_one :
+  forall i, outer_wf i -> cand_valid i = true -> cand_is_tip i = false -> cand_on_active i = false ->
+    forks_below_final i -> outer_cmp i = (1, TIP_IS_FINAL).
+Proof. exact outer_below_final_is_one. Qed.
+Print Assumptions C03_outer_below_final_is_one.
+
+Theorem C03_outer_height_guard_refuted :
+  exists i, outer_wf i /\ forks_below_final i /\ fst (outer_cmp_gen next_to_fork_final_height i) < 0.
+Proof. exact outer_height_guard_refuted. Qed.
+Print Assumptions C03_outer_height_guard_refuted.
